@@ -291,6 +291,9 @@ def jobs_for(pid, tier, seed):
                       env={'create': ('ok',), 'recycle': ('ok',)}, ctl=('retain',), max_ctl=1, cancel=False, take=False, probe=False))
         J.append(mfam('idle objects that survive a shrink / grow keep their order (max_size 3)', ['C08'], 7 if q else 9, tasks=3, max_size_concrete=3, prefix=P3,
                       env={'create': ('ok',), 'recycle': ('ok',)}, ctl=('resize',), resize_targets=(2, 4), max_ctl=1, cancel=False, take=False, probe=False))
+        J.append(mfam('thread level: non-blocking get racing retain with 2 idle objects (lock contention: callbacks under the lock are schedule points iff the crate probes locks): idle order, creation only without idle objects (max_size 3)',
+                      ['C08'], 14 if q else 18, tasks=2, max_size_concrete=3, prefix=(('get', 'T1', 0), ('get', 'T2', 0), ('drop', 'T1', 0), ('drop', 'T2', 0)), env={'create': ('ok',), 'recycle': ('ok',)},
+                      thread_mode=True, timeout_variants=[('zero', None, None)], ctl=('retain',), max_ctl=1, cancel=False, take=False, max_gets=2, probe=False))
         P2 = (('get', 'T1', 0), ('get', 'T1', 0), ('get', 'T2', 0), ('drop', 'T1', 0), ('drop', 'T1', 0))
         J.append(mfam('thread level: return / get racing a shrink (detach as schedule point): idle order, creation only without idle objects (max_size 3)', ['C08'], 12 if q else 16, tasks=2, max_size_concrete=3, prefix=P2,
                       env={'create': ('ok',), 'recycle': ('ok',)}, thread_mode=True, ctl=('resize',), resize_targets=(2,), max_ctl=1, cancel=False, take=False, max_gets=3, lifo=False, probe=False))
